@@ -346,6 +346,8 @@ def check_model(ctx, sc, m, w, p, r, UVLWriter, UVLReader, label):
         if not same_spec(spec.dump_fm(cur), back):
             r.oracle_fail(label, req, f"cycle{cyc}:model-differs", "")
             break
+    for c_, d_ in fmt.exchange_cycles(UVLWriter, UVLReader, sc.path("uvl"), cur, back, same_spec):
+        r.oracle_fail(label, req, c_, d_)
 
 
 # ------------------------------------------------------------------------------ C04: reference emitter
